@@ -12,9 +12,9 @@ from .common import log
 PROP = "C04"
 TRUSTED = [
     "Coq 8.16.1 kernel (coqc); vm_compute evaluates the model in cases.v; no native_compute",
-    "Print Assumptions of every theorem in coq/C04/Props.v and coq/Gen/SkipSites.v: Closed under the global context (checked each run)",
+    "Print Assumptions of every theorem in coq/C04/Props.v and coq/Gen/C04/SkipSites.v: Closed under the global context (checked each run)",
     "hand-written model coq/C04/Model.v of is_skip / contains_skip (utils.rs) and SkipNameContext (skip.rs); tied to the code by a correspondence run on generated attributes through hook verif_hooks::skip (the model consumes rustc's own MetaItem structure; the expected verdict is recomputed from the generated attribute, independently)",
-    "coq/Gen/SkipSites.v is REGENERATED from /repo/src on every run by a syntactic scan (checks/c04.py: does the body of each formatting entry point of an attribute-carrying node test contains_skip / visit_attrs / the skip context?): a syntactic tie, not a semantic proof",
+    "coq/Gen/C04/SkipSites.v is REGENERATED from /repo/src on every run by a syntactic scan (checks/c04.py: does the body of each formatting entry point of an attribute-carrying node test contains_skip / visit_attrs / the skip context?): a syntactic tie, not a semantic proof",
     "that a skipped node's bytes really reach the output is decided per run by the byte-occurrence oracle on pool programs with injected skip attributes (a search, not a theorem); whole-file opt-outs are checked with the real binary",
 ]
 SPELLINGS = ["#[rustfmt::skip]", "#[rustfmt_skip]", "#[cfg_attr(any(), rustfmt::skip)]", "#[cfg_attr(x, cfg_attr(y, rustfmt::skip))]"]
@@ -68,7 +68,7 @@ def fn_body(tokens, marker):
 
 
 def gen_skip_sites():
-    """the translator for Gen/SkipSites.v"""
+    """the translator for Gen/C04/SkipSites.v"""
     rows = []
     files = sorted(set(f for f, _, _ in SITES))
     texts = []
@@ -86,9 +86,9 @@ def gen_skip_sites():
         found = body is not None
         guarded = bool(body and re.search(pat, body))
         rows.append((f, marker, found, guarded))
-    d = os.path.join(common.COQ, "Gen")
+    d = os.path.join(common.COQ, "Gen", "C04")
     os.makedirs(d, exist_ok=True)
-    lines = ["(* Gen/SkipSites.v — REGENERATED on every run by checks/c04.py from /repo/src: for each formatting entry point of an",
+    lines = ["(* Gen/C04/SkipSites.v — REGENERATED on every run by checks/c04.py from /repo/src: for each formatting entry point of an",
              "   attribute-carrying node, was the function found and does its body consult the skip marker? *)",
              "From Coq Require Import List Bool String.", "Import ListNotations.", "Open Scope string_scope.",
              "Definition sites : list (string * string * bool * bool) := ["]
@@ -347,7 +347,7 @@ def run(tier, seed, replay):
 
     return common.standard_run(
         PROP, tier, seed, replay,
-        dirs=["C04"], props_file="C04/Props.v", trusted=TRUSTED, gen_cases=gen, vh_sub="c04",
+        dirs=["C04", "Gen/C04"], props_file="C04/Props.v", trusted=TRUSTED, gen_cases=gen, vh_sub="c04",
         imports="From V Require Import Base.Text C04.Model C04.Run.\nOpen Scope N_scope.",
         model_expr=model_expr, canon_model=canon_model, canon_impl=canon_impl, oracle=oracle, nontrivial=nontrivial,
         rule="(a) seeded random attribute lists (rustfmt::skip, rustfmt_skip, nested cfg_attr with 1..3 arguments and literals, look-alikes, skip::macros / skip::attributes lists) on 1..3 items: contains_skip and the name-list queries compared with the model and with the verdict recomputed from the generated attribute; (b) the regenerated inventory of formatting entry points (skip_sites); (c) the byte-occurrence oracle with injected skip attributes on pool programs and the whole-file opt-outs with the real binary (see e2e_rule). non-trivial = some item carries a recognised skip; distinct by hash",
